@@ -41,18 +41,42 @@ class NpProxy:
         return getattr(object.__getattribute__(self, "_real"), name)
 
 
+_REAL = [None]
+
+
+def _dispatch(*shapes):
+    """numpy.broadcast_shapes replacement: the model when a proxy size is involved, else real."""
+    from symx.core import SymInt
+    if any(isinstance(d, SymInt) for s in shapes if isinstance(s, (tuple, list)) for d in s):
+        NpProxy.calls += 1
+        return broadcast_shapes(*shapes)
+    return _REAL[0](*shapes)
+
+
 def install():
-    """Replace the `np` global of jaxtyping._array_types (only) by the proxy."""
+    """Make jaxtyping's broadcast computation proxy-friendly.
+
+    Primary route: the `np` global of jaxtyping._array_types is replaced by a proxy (only that
+    module sees it).  Fallback (should the module obtain the function differently, e.g. through
+    another alias): numpy.broadcast_shapes itself dispatches to the model *only* when a symbolic
+    size is involved and to the real function otherwise."""
     import numpy
     import jaxtyping._array_types as at
-    if not isinstance(at.np, NpProxy):
+    if _REAL[0] is None:
+        _REAL[0] = numpy.broadcast_shapes
+        numpy.broadcast_shapes = _dispatch
+    if hasattr(at, "np") and not isinstance(at.np, NpProxy):
         at.np = NpProxy(numpy)
+    for name in ("broadcast_shapes",):
+        if getattr(at, name, None) is _REAL[0]:
+            setattr(at, name, _dispatch)
 
 
 def uninstall():
     import numpy
     import jaxtyping._array_types as at
-    at.np = numpy
+    if hasattr(at, "np"):
+        at.np = numpy
 
 
 def selftest(maxrank=3, sizes=(0, 1, 2, 3)):
@@ -64,7 +88,7 @@ def selftest(maxrank=3, sizes=(0, 1, 2, 3)):
     for a in shapes:
         for b in shapes:
             try:
-                want = numpy.broadcast_shapes(a, b)
+                want = (_REAL[0] or numpy.broadcast_shapes)(a, b)
             except ValueError:
                 want = "VE"
             try:
